@@ -15,6 +15,7 @@
 package controllers
 
 import (
+	"cmp"
 	"context"
 	"fmt"
 	"io"
@@ -342,12 +343,26 @@ func (s *shardController) electLeader() error {
 	s.statusResource.UpdateShardMetadata(s.namespace, s.shard, s.shardMetadata)
 
 	// Send NewTerm to all the ensemble members
-	fr, err := s.newTermQuorum()
+	fr, removedNodesHeads, err := s.newTermQuorum()
 	if err != nil {
 		return err
 	}
 
 	newLeader, followers := selectNewLeader(fr)
+
+	// The nodes that are being removed from the ensemble count for the fencing
+	// quorum, though they cannot be elected. If one of them has a more recent
+	// log than all the candidates, the entries that only it holds might be
+	// committed already (together with a member that did not respond), and
+	// electing any of the candidates would lose them.
+	// Fail the election: it will succeed once all the members have responded.
+	allMembersResponded := len(fr) == len(s.shardMetadata.Ensemble)
+	for removedNode, head := range removedNodesHeads {
+		if !allMembersResponded && compareEntryIds(head, fr[newLeader]) > 0 {
+			return errors.Errorf("removed node %s has a more recent log %v than the best candidate %s %v",
+				removedNode.GetIdentifier(), head, newLeader.GetIdentifier(), fr[newLeader])
+		}
+	}
 
 	if s.log.Enabled(context.Background(), slog.LevelInfo) {
 		f := make([]struct {
@@ -552,7 +567,10 @@ func (s *shardController) internalNewTermAndAddFollower(ctx context.Context, nod
 
 // Send NewTerm to all the ensemble members in parallel and wait for
 // a majority of them to reply successfully.
-func (s *shardController) newTermQuorum() (map[model.Server]*proto.EntryId, error) {
+// It returns the head entries of the fenced ensemble members and, separately,
+// the ones of the fenced nodes that are being removed from the ensemble.
+func (s *shardController) newTermQuorum() (members map[model.Server]*proto.EntryId,
+	removedNodes map[model.Server]*proto.EntryId, err error) {
 	timer := s.newTermQuorumLatency.Timer()
 
 	fencingQuorum := mergeLists(s.shardMetadata.Ensemble, s.shardMetadata.RemovedNodes)
@@ -608,7 +626,7 @@ func (s *shardController) newTermQuorum() (map[model.Server]*proto.EntryId, erro
 	totalResponses := 0
 
 	res := make(map[model.Server]*proto.EntryId)
-	var err error
+	removed := make(map[model.Server]*proto.EntryId)
 
 	// Wait for a majority to respond
 	for successResponses < majority && totalResponses < fencingQuorumSize {
@@ -621,6 +639,8 @@ func (s *shardController) newTermQuorum() (map[model.Server]*proto.EntryId, erro
 			// We don't consider the removed nodes as candidates for leader/followers
 			if listContains(s.shardMetadata.Ensemble, r.Server) {
 				res[r.Server] = r.EntryId
+			} else {
+				removed[r.Server] = r.EntryId
 			}
 		} else {
 			err = multierr.Append(err, r.error)
@@ -628,7 +648,7 @@ func (s *shardController) newTermQuorum() (map[model.Server]*proto.EntryId, erro
 	}
 
 	if successResponses < majority {
-		return nil, errors.Wrap(err, "failed to newTerm shard")
+		return nil, nil, errors.Wrap(err, "failed to newTerm shard")
 	}
 
 	// If we have already reached a quorum of successful responses, we can wait a
@@ -641,6 +661,8 @@ func (s *shardController) newTermQuorum() (map[model.Server]*proto.EntryId, erro
 				// We don't consider the removed nodes as candidates for leader/followers
 				if listContains(s.shardMetadata.Ensemble, r.Server) {
 					res[r.Server] = r.EntryId
+				} else {
+					removed[r.Server] = r.EntryId
 				}
 			} else {
 				err = multierr.Append(err, r.error)
@@ -648,12 +670,12 @@ func (s *shardController) newTermQuorum() (map[model.Server]*proto.EntryId, erro
 
 		case <-time.After(quorumFencingGracePeriod):
 			timer.Done()
-			return res, nil
+			return res, removed, nil
 		}
 	}
 
 	timer.Done()
-	return res, nil
+	return res, removed, nil
 }
 
 func (s *shardController) newTerm(ctx context.Context, node model.Server) (*proto.EntryId, error) {
@@ -680,6 +702,15 @@ func (s *shardController) deleteShardRpc(ctx context.Context, node model.Server)
 	})
 
 	return err
+}
+
+func compareEntryIds(a, b *proto.EntryId) int {
+	switch {
+	case a.Term != b.Term:
+		return cmp.Compare(a.Term, b.Term)
+	default:
+		return cmp.Compare(a.Offset, b.Offset)
+	}
 }
 
 func selectNewLeader(newTermResponses map[model.Server]*proto.EntryId) (
